@@ -18,10 +18,25 @@ Alphabet (complete enumeration, nothing sampled)
                  thorough: all); every copula model of mc.alphabets.copula_model_specs(tier) (dimension 2 and 3); SDE models
                  (HIST_WRAPPED: LevyDrivenSDEModel and the forward market model of model/utils.py, driven by a 1-d Levy model
                  and by a 2-d copula model) for the constructors that accept them (uniform, geometric): the constructor reads
-                 the measure(s) of the driver
+                 the measure(s) of the driver;
+                 HEAVY-TAILED models (HEAVY_MODELS: HEM eta2 = 0.1 / eta1 = 0.03, CGMY m = 0.05 / g = 0.05 with y = 0.5,
+                 Merton sigma_j = 40, exponential HEM; quick: the first five), as a margin of a copula model (HEAVY_CMODELS,
+                 dimension 2; thorough also 3) and as the driver of an SDE model (HEAVY_WRAPPED): more than 1e-5 of the
+                 one-sided jump mass lies beyond +-100, so that the tail-mass equation at p = 0.99999 has no root inside the
+                 library's search interval (input class `bound-beyond-100`, decided on the density), while at p = 0.9 the
+                 root is ordinary; their probability-step axes run through the constructor's fall-back stepping
   arguments      mc.alphabets.grid_specs(tier, dimension) plus the extras listed in `_extra_model_grids` (credit thresholds as
-                 pairs / triples, asymmetric 1-d credit, a geometric grid at a low truncation probability)
-  depth          3 refinements (quick) / 5 (thorough; 4 for the probability-step grid whose middle() is a root search)
+                 pairs / triples, asymmetric 1-d credit, a geometric grid at a low truncation probability);
+                 sizes: n = 2 (one state per side), 4 (even), 601 (beyond 256 and, refined, 2048 states; thorough: 8193 ->
+                 beyond 32768), integral h and bounds; degenerate options: truncation probability 0 (root at h/2, bound
+                 forced out to h) and 1 (no root / a root at the end of the search interval), minimum probability step 1
+  small h / deep probability-step grids h = 1e-3 (4 refinements), 1e-5 (5 refinements: smallest gap 3e-7) for every family
+                 (`_prob_deep`), h = 2e-6 in dimension 2, and 8 refinements at h = 0.05 (thorough: 10; h down to 2e-6 in
+                 dimension 3, 6 refinements at h = 1e-5): the root searches have absolute tolerances while the gaps next to
+                 the origin halve at every refinement
+  depth          3 refinements (quick) / 5 (thorough; 4 for the probability-step grid whose middle() is a root search) unless
+                 the grid spec carries its own depth: 10 (thorough 12) refinements of small grids with the arithmetic middle
+                 (fixed, geometric-bounds, credit; raw: 8 / 10), the deep probability-step grids above
 
 State invariants (every state, every axis)
   finite; strictly increasing; value 0.0 at origin_coordinate; left neighbour -h, right neighbour +h;
@@ -38,17 +53,29 @@ State invariants (every state, every axis)
     credit           : additionally every threshold a (and -a on the symmetric grid) is the grid's own middle() of two
                        neighbouring states of the constructed grid (depth 0: after a refinement the threshold is a state)
     probability      : per-step promise: no gap [x_j, x_j+1] away from the origin carries more than p_min of the total jump
-                       mass nu(|x| > h/2) (quadrature, slack 1e-6 for the constructor's root finder xtol = 1e-10); the gaps
-                       carrying exactly p_min are counted and written out in the evidence (observation)
+                       mass nu(|x| > h/2) (quadrature, slack 1e-6 + 4e-10 * density / total for the constructor's root
+                       finder xtol = 1e-10); the gaps carrying exactly p_min are counted and written out in the evidence
 Transition invariants (every edge old -> new, every axis)
   len(new) == 2 len(old) - 1; new[2i] == old[i] (exactly); old[i] < new[2i+1] < old[i+1]; new[2i+1] == the OLD grid's own
   middle(old[i], old[i+1]) evaluated on the old grid before the call; h halved; origin index doubled; truncations unchanged;
   axes that were equal (shared storage `[axis] * dimension`) stay equal, i.e. no axis is refined twice.
+  probability-step grid, every edge, every gap away from the origin (`_split_invariants`): the inserted state is the point with
+  EQUAL JUMP PROBABILITY on both sides inside the gap (what CTMCGridProbabilityStep.middle documents as the cell boundary),
+  decided by quadrature of the model's own density without any root search of the library: G(x) = nu((a,x)) - nu((x,b))
+  changes sign within tol = 1e-6 * (b - a) + 1e-9 of the inserted state (relative to the gap; the library's xtol is 1e-10,
+  measured <= 2.5e-11 on the pinned tree for every family and h from 0.1 to 1e-5).
 Several grids alive at once (sub-check "twin", every "grid" case): two grids built from the same arguments and the SAME model
   object, and a deep copy of the first: equal at construction; refine() of one leaves the other two untouched; the three
-  refinements agree (no state shared through class attributes, interned coordinates or remembered arrays).
+  refinements agree (no state shared through class attributes, interned coordinates or remembered arrays). Serialised copies
+  (`_copies_invariants`: pickle and dill round trips, what a process pool does to a grid): equal at construction, refine to
+  the same grid, refining them leaves the original untouched and vice versa.
+Argument forms (sub-check "forms", every "grid" case, `_forms_invariants` / FORMS): the same constructor call with the arguments
+  positionally, as numpy scalars (np.float64 / np.int64 / np.bool_, also inside sequences), bounds / thresholds as ndarray,
+  list <-> tuple, flags as int, integral h / bounds as Python ints (model-free constructors) returns EXACTLY the same grid and
+  refines to the same grid; the caller's lists / arrays are not modified by the constructor or refine(); overwriting the
+  caller's bounds / thresholds afterwards does not move the grid (also through a further refine()).
 Observations (recorded, never asserted): the coordinate object captured before refine() is mutated in place (aliasing);
-  create_from_fixed_nb_of_points(n even) returns n+1 points; the probability grid's middle splits the gap's mass equally.
+  create_from_fixed_nb_of_points(n even) returns n+1 points.
 
 Histories on ONE model object (sub "mhist"; violation keys `C13:history-<sub-check>:...:after-<mutation>`)
   A constructor promises its tail probability for the measure the model has AT THE TIME OF THE CALL. A case is (model, h, p,
@@ -66,28 +93,38 @@ Histories on ONE model object (sub "mhist"; violation keys `C13:history-<sub-che
                   (a SECOND model object of the same class with the donor parameters is used with the same constructor,
                   h, p in between, itself checked) | deepcopy-set-params / deepcopy-truncate (the history goes on with a
                   copy.deepcopy of the model, as the chain constructors do, then mutated)
-    models        HIST_MODELS (HEM, Merton, VG, CGMY y = -0.5, 0.5, 1.2, exponential HEM and CGMY), HIST_CMODELS (2-d and
-                  3-d copula models), HIST_WRAPPED; (h, p) = (0.1, 0.99999); (0.05, 0.999) for CGMY 0.5 (quick) / all (thorough)
+    models        HIST_MODELS (HEM, Merton, VG, CGMY y = -0.5, 0.5, 1.2, exponential HEM and CGMY; a heavy-tailed HEM that
+                  set-params makes ordinary, and an ordinary HEM that set-params makes heavy-tailed: the refusal / fall-back
+                  paths reached through a history), HIST_CMODELS (2-d and 3-d copula models), HIST_WRAPPED;
+                  (h, p) = (0.1, 0.99999); (0.05, 0.999) for CGMY 0.5 (quick) / all (thorough)
     oracle        every grid of the word is judged like a grid of a new model: state invariants and promises, the tail and
                   per-step masses by quadrature of the model's CURRENT density (split at the cuts applied); and it is
                   compared (rtol 1e-9) with the grid the same constructor returns for a NEW model object built directly in
                   the same state (sub-check "fresh": parameters passed to the model constructor, same cuts applied).
 Outside the alphabet (statement silent): credit thresholds that are not strictly between the left truncation and -h (the
   constructor's formula needs l < a < -h; such specs are counted as `skipped_credit_threshold_outside_(l,-h)`), constructor
-  argument validation (covered by the repository's test_grid), nb_of_points_on_each_side < 2, more than 1e8 points, bounds
-  for create_with_bounds within h of the origin, grids whose axes are passed in malformed to the base constructor,
+  argument validation (covered by the repository's test_grid), nb_of_points_on_each_side < 2, n < 2, more than 1e8 points,
+  bounds for create_with_bounds within h of the origin, grids whose axes are passed in malformed to the base constructor,
   CTMCCredit / CTMCGridProbabilityStep for SDE models (not declared), a probability-step grid whose model is changed AFTER
   the construction (its middle() keeps a reference to the measure; the statement ties refine() to the grid's own middle()),
-  changes of a model through private attributes.
+  changes of a model through private attributes; probability-step gaps narrower than 3e-7 (the pinned tree's own root search
+  stops at 1e-10: some 30 refinements of h = 0.1, beyond any enumerable depth);
+  argument forms the pinned tree rejects (an integer h for the model-based constructors and CTMCGrid, integer-dtype or
+  float32 axes, a tuple of axes, a scalar threshold for a copula model, a float number of points: TypeError / ValueError), a
+  0-d array as h (refine() halves the caller's array in place: `self.h /= 2`), copy.copy of a grid (shares the list of axes
+  with the original by definition), arrays handed to the base constructor CTMCGrid modified afterwards (the grid IS those
+  arrays; only that the constructor and refine() leave the caller's array objects unchanged is asserted).
 Refusal: a ValueError (the library's argument-validation exception) raised by a constructor is accepted as "no grid returned"
-  only for the input class in which no well-formed grid with the promised end points exists (a tail-mass root within h of
-  the origin; a symmetric credit grid whose mirror point -a+eps lies beyond the right root) and is counted
+  only for the input classes in which no well-formed grid with the promised end points can be returned (a tail-mass root
+  within h of the origin; a symmetric credit grid whose mirror point -a+eps lies beyond the right root; `bound-beyond-100`:
+  a root beyond the search interval of the library's root finder) and is counted
   (`constructor_refuses_arguments_without_well_formed_grid`); any other exception, or a ValueError in any other input
-  class, is a violation.
+  class, is a violation. A grid that IS returned in these classes is judged like any other: it must keep the promised
+  probability (a bound of +-100 handed out instead of the root leaves more than 1-p outside).
 Time axis: rpylib/grid/time.py has no origin, h, truncation or refine(); only the clauses of the statement that have a
   meaning for it are evaluated (sub "time": strictly increasing, finite, len == num, end points == the start/end it reports,
   reported num and step agree with the axis) for start < end and num >= 2, with a second object of the same class built
-  with other arguments and read in between.
+  with other arguments and read in between, and the same arguments as numpy scalars / keywords / Python ints (same axis).
 """
 from __future__ import annotations
 
@@ -116,6 +153,11 @@ ASSUMPTIONS = [
     "the new state to 'the point the grid itself uses as cell boundary', not to the arithmetic mean",
     "states are merged when (axes, h, origin_coordinate, truncations) agree: refine() reads nothing else (the probability "
     "grid's middle also reads levy_measure / intensity_of_jumps, which no method writes)",
+    "the cell boundary of a probability-step grid is the point of its gap with equal jump probability on both sides (docstring "
+    "of CTMCGridProbabilityStep.middle); it is located on the model's own density to 1e-6 of the gap + 1e-9, ten times the "
+    "tolerance of the library's root search, and imbalances below 1e-13 of the total jump mass are taken as rounding",
+    "a constructor that raises ValueError for a model whose tail-mass root lies beyond +-100 (decided on the density) returns "
+    "no grid and promises nothing; a grid it does return must keep the requested probability",
     "a model whose parameters were re-assigned (followed by initialisation()) or whose measure was truncated through the public "
     "truncate_levy_measure is a model of the quantifier; the grid promised for it is the one for its measure at the time of "
     "the constructor call (the density the model itself reports then)",
@@ -1198,6 +1240,11 @@ def _copies_invariants(sh, ctx, case, model, s1, ref):
         try:
             c = f(g0)
         except Exception as e:
+            if name == "pickle" and len(routes) > 1:
+                # the library's pools serialise with dill: a grid that plain pickle cannot take (e.g. it holds a closure)
+                # is counted; only a failing dill round trip is an alarm
+                sh.count("plain_pickle_round_trip_unavailable")
+                continue
             out.append((f"C13:twin:{comp}:{name}-round-trip-raises:{type(e).__name__}:{dcls}", f"{type(e).__name__}: {e}", None))
             continue
         sh.count("evaluations")
@@ -1707,24 +1754,6 @@ def _split_invariants(sh, ctx, old, new, nrefine):
             break
         sh.count("probability_middle_confirmed_as_equal_probability_point")
     return out
-
-
-def _observe_equal_mass_split(sh, ctx, old, new):
-    """Observation only: the probability grid's middle is documented to split the gap's mass equally."""
-    nu = ctx.nus[0]
-    a = old["axes"][0]
-    b = new["axes"][0]
-    if b.size != 2 * a.size - 1:
-        return
-    for j in range(a.size - 1):
-        if a[j] == 0.0 or a[j + 1] == 0.0 or not (a[j] < b[2 * j + 1] < a[j + 1]):
-            continue
-        lo, _ = O.integrate_density(nu, float(a[j]), float(b[2 * j + 1]))
-        hi, _ = O.integrate_density(nu, float(b[2 * j + 1]), float(a[j + 1]))
-        if core.close(lo, hi, rtol=1e-6, atol=1e-12):
-            sh.count("observation_probability_middle_splits_mass_equally")
-        else:
-            sh.count("observation_probability_middle_does_not_split_mass_equally")
 
 
 # ----------------------------------------------------------------------------------------------------------------------
